@@ -51,8 +51,9 @@ const waitingPrefix = "tunnox:tunnel_waiting:"
 
 // gatedStore parks writes and deletes of routing records at a scheduler gate; everything else
 // passes straight through to the node's storage.
+// It embeds the concrete *hybrid.Storage so that optional interfaces stay visible through it.
 type gatedStore struct {
-	storage.Storage
+	*storage.HybridStorage
 	s *sched.Sched
 }
 
@@ -61,7 +62,7 @@ func (g *gatedStore) Set(key string, v any, ttl time.Duration) error {
 		g.s.Gate("rt.Set", map[string]any{"key": key})
 		defer g.s.After()
 	}
-	return g.Storage.Set(key, v, ttl)
+	return g.HybridStorage.Set(key, v, ttl)
 }
 
 func (g *gatedStore) Delete(key string) error {
@@ -69,7 +70,7 @@ func (g *gatedStore) Delete(key string) error {
 		g.s.Gate("rt.Delete", map[string]any{"key": key})
 		defer g.s.After()
 	}
-	return g.Storage.Delete(key)
+	return g.HybridStorage.Delete(key)
 }
 
 // Model tick -> real time.  Waiting period = 1 tick.
@@ -324,7 +325,7 @@ func newWorld(env *fw.Env, b fw.Behaviour, beh behaviour) (*world, error) {
 			wd.cloud[n] = &cloudStub{m: map[string]*models.PortMapping{}}
 			s.SM.SetCloudControl(wd.cloud[n])
 			if beh.Mode == "gated" {
-				s.SM.SetTunnelRoutingTable(session.NewTunnelRoutingTable(&gatedStore{Storage: w.Stores[n], s: wd.sch}, period))
+				s.SM.SetTunnelRoutingTable(session.NewTunnelRoutingTable(&gatedStore{HybridStorage: w.Stores[n].(*storage.HybridStorage), s: wd.sch}, period))
 			} else {
 				s.SM.SetTunnelRoutingTable(wd.rt[n])
 			}
